@@ -99,7 +99,11 @@ func (p *PanicError) Message() any {
 
 // Next returns the next panic in the chain.
 func (p *PanicError) Next() *PanicError {
-	return &PanicError{p.p.Next()}
+	next := p.p.Next()
+	if next == nil {
+		return nil
+	}
+	return &PanicError{next}
 }
 
 // Recovered reports whether it has been recovered.
